@@ -200,6 +200,7 @@ CHECKS["C05"] = {
     "jobs": [
         {"pkg": COMMON, "run": "^TestVerif_C05_Cuts$", "timeout": {"quick": 600}},
         {"pkg": COMMON, "run": "^TestVerif_C05_Sampled$", "checks": {"quick": 1500, "thorough": 200000}, "shards": {"thorough": 16}, "timeout": {"quick": 600}},
+        {"pkg": COMMON, "run": "^TestVerif_C05_Stall$", "checks": {"quick": 400, "thorough": 40000}, "shards": {"thorough": 8}, "timeout": {"quick": 300}},
         {"pkg": COMMON, "run": "^TestVerif_C05_Oversize$", "checks": {"quick": 300, "thorough": 20000}, "shards": {"thorough": 4}},
         {"pkg": SERVER, "run": "^TestVerif_C05_HandshakeThenRecords$", "checks": {"quick": 150, "thorough": 10000}, "shards": {"thorough": 16}, "timeout": {"quick": 600}},
         {"pkg": COMMON, "run": "^$", "tiers": ["thorough"], "fuzz": {"target": "^FuzzVerifTLSConnStream$", "seconds": {"quick": 0, "thorough": 120}}},
